@@ -37,13 +37,13 @@ def child_env():
     return env
 
 
-def run_reference(cases, pad=None, chunk=60, workers=8):
+def run_reference(cases, pad=None, chunk=60, workers=8, limit=None):
     """Traced unmodified-CPython runs of many cases (batched: several fresh `__main__` modules per interpreter).
     `pad`: None = stdin ends after the queued inputs (what `python prog.py < inputs` does); "0" = the queue is
     followed by the sandbox's default reply for ever (the path the sandbox takes; used for the model tie only)."""
     os.makedirs(SCRATCH, exist_ok=True)
     jobs = [{"code": c["code"], "filename": c.get("filename", "answer.py"), "inputs": c.get("inputs", []),
-             "pad": pad, "calls": [{"fn": k["fn"], "args": k.get("args", []), "kwargs": k.get("kwargs", {}),
+             "pad": pad, "limit": limit, "calls": [{"fn": k["fn"], "args": k.get("args", []), "kwargs": k.get("kwargs", {}),
                                     **({"inputs": k["inputs"]} if "inputs" in k else {}),
                                     **({"target": k["target"]} if "target" in k else {})}
                                    for k in c.get("calls", [])] if pad is None else []} for c in cases]
@@ -145,12 +145,13 @@ def run_sandbox(case):
     res = {"calls": []}
     api = case.get("api", "commands")
     try:
+        sb = MAIN_REPORT["sandbox"]["sandbox"]
+        if case.get("limit") is not None:
+            sb.MAXIMUM_INPUTS = case["limit"]       # instance attribute: the class constant stays what it is
         if api == "commands":
-            sb = MAIN_REPORT["sandbox"]["sandbox"]
             commands.set_input(list(case.get("inputs", [])))
             commands.run()
         else:
-            sb = MAIN_REPORT["sandbox"]["sandbox"]
             sb.run(inputs=list(case.get("inputs", [])))
     except BaseException as e:      # noqa
         return {"escaped": type(e).__name__, "calls": []}
@@ -255,8 +256,12 @@ def oracle(case, refres, sb):
         return ({"kind": "input-queue-exhausted"},
                 "input() with an exhausted queue answers '0' where CPython raises EOFError: outcome %r vs %r"
                 % (sb["outcome"], refres["outcome"]))
-    if sb["outcome"] != refres["outcome"]:
-        so, ro = sb["outcome"], refres["outcome"]
+    so, ro = sb["outcome"], refres["outcome"]
+    if so and ro and so[0] == ro[0] == "RecursionError":
+        # where CPython gives up depends on how deep the stack already is (the sandbox's own frames count):
+        # only the kind of exception is compared for runaway recursion
+        so = ro = ["RecursionError", None]
+    if so != ro:
         mro = refres.get("outcome_mro", [])
         if so and ro and so[0] == "KeyError" and ro[0] != "KeyError" and "KeyError" in mro and so[1] == ro[1]:
             sig = {"kind": "outcome", "cause": "keyerror-subclass-replaced"}
